@@ -1504,6 +1504,9 @@ class Executor:
 
         # Try to handle one of the pending EPR responses
         handled = False
+        # Requests whose oldest pending response could not be handled yet: later
+        # responses for the same request queue must wait, to keep responses in order.
+        blocked_requests = set()
         for i, response in enumerate(self._pending_epr_responses):
 
             if response.type == ReturnType.ERR:
@@ -1515,11 +1518,15 @@ class Executor:
                 info = self._extract_epr_info(response=response)  # type: ignore
                 if info is not None:
                     epr_cmd_data, pair_index, is_creator, request_key = info
+                    if (is_creator, request_key) in blocked_requests:
+                        continue
                     handled = self._epr_response_handlers[response.type](
                         epr_cmd_data=epr_cmd_data,
                         response=response,
                         pair_index=pair_index,
                     )
+                    if not handled:
+                        blocked_requests.add((is_creator, request_key))
                 if handled:
                     epr_cmd_data.pairs_left -= 1
 
